@@ -42,6 +42,7 @@ def build_inventory(repo: Repo) -> t.Dict[str, t.Any]:
     return {
         "conv": Normalizer(repo, {}).conventions(),
         "callers": _callers(repo),
+        "classes": sorted(repo.classes),
         "nparams": {q: len(f.params) for q, f in repo.funcs.items()},
         "funcs": sorted(repo.funcs),
         "consts": {m.name: sorted(m.consts) for m in repo.modules.values()},
@@ -211,6 +212,8 @@ class Normalizer:
     # ------------------------------------------------------------------------------------------ driver
     def run(self) -> None:
         repo = self.repo
+        inv_classes = set(self.inventory.get("classes", []))
+        repo.new_classes = {q for q in repo.classes if inv_classes and q not in inv_classes}  # type: ignore[attr-defined]
         self.undo_renames()
         self.new_funcs = {q: f for q, f in repo.funcs.items() if q not in self.inv_funcs}
         for f in list(repo.funcs.values()):
@@ -230,6 +233,8 @@ class Normalizer:
             self._replace_node(f, self.split_ifexp(f))
         for f in list(repo.funcs.values()):
             self._replace_node(f, self.unflag_loops(f))
+        for f in list(repo.funcs.values()):
+            self._replace_node(f, self.equivalent_calls(f))
         for f in list(repo.funcs.values()):
             self._replace_node(f, self.desugar_listcomp(f))
         for f in list(repo.funcs.values()):
@@ -832,6 +837,37 @@ class Normalizer:
 
         new = copy.copy(f.node)
         new.body = block(list(f.node.body))
+        return new if hit[0] else None
+
+    # ------------------------------------------------------------------------------------------ N10
+    def equivalent_calls(self, f: Func) -> t.Optional[FuncNode]:
+        """reversed(range(a, b)) -> range(b - 1, a - 1, -1);  divmod(a, b)[0] -> a // b;  divmod(a, b)[1] -> a % b  (pure a, b)."""
+        hit = [False]
+
+        class T(ast.NodeTransformer):
+            def visit_Call(self, node: ast.Call) -> ast.AST:
+                self.generic_visit(node)
+                if isinstance(node.func, ast.Name) and node.func.id == "reversed" and len(node.args) == 1 and not node.keywords:
+                    r = node.args[0]
+                    if isinstance(r, ast.Call) and isinstance(r.func, ast.Name) and r.func.id == "range" and 1 <= len(r.args) <= 2 and not r.keywords and all(_is_pure(a) or isinstance(a, ast.Call) and isinstance(a.func, ast.Name) and a.func.id == "len" for a in r.args):
+                        lo = r.args[0] if len(r.args) == 2 else ast.Constant(value=0)
+                        hi = r.args[-1]
+                        hit[0] = True
+                        new = ast.Call(func=ast.Name(id="range", ctx=ast.Load()), args=[ast.BinOp(left=hi, op=ast.Sub(), right=ast.Constant(value=1)), ast.BinOp(left=lo, op=ast.Sub(), right=ast.Constant(value=1)), ast.UnaryOp(op=ast.USub(), operand=ast.Constant(value=1))], keywords=[])
+                        return ast.copy_location(new, node)
+                return node
+
+            def visit_Subscript(self, node: ast.Subscript) -> ast.AST:
+                self.generic_visit(node)
+                v = node.value
+                if isinstance(node.ctx, ast.Load) and isinstance(v, ast.Call) and isinstance(v.func, ast.Name) and v.func.id == "divmod" and len(v.args) == 2 and not v.keywords and isinstance(node.slice, ast.Constant) and node.slice.value in (0, 1) and all(not any(isinstance(x, (ast.Await, ast.Yield, ast.NamedExpr)) for x in ast.walk(a)) for a in v.args):
+                    hit[0] = True
+                    op: ast.operator = ast.FloorDiv() if node.slice.value == 0 else ast.Mod()
+                    return ast.copy_location(ast.BinOp(left=v.args[0], op=op, right=v.args[1]), node)
+                return node
+
+        new = copy.deepcopy(f.node)
+        T().visit(new)
         return new if hit[0] else None
 
     # ------------------------------------------------------------------------------------------ N9
